@@ -272,6 +272,7 @@ type fileState struct {
 	keep    map[string]string // import name -> an exported symbol to keep it used
 	inInit  int               // >0 while inside a package-level var initialiser
 	litN    map[string]int
+	skipCh  map[ast.Node]bool // channel operations that are communication clauses of a select: left as they are
 }
 
 func (s *fileState) add(e edit) {
@@ -303,7 +304,7 @@ func (s *fileState) curFunc() string {
 }
 
 func (c *ctx) file(p *packages.Package, f *ast.File) []edit {
-	s := &fileState{c: c, p: p, info: p.TypesInfo, keep: map[string]string{}, litN: map[string]int{}}
+	s := &fileState{c: c, p: p, info: p.TypesInfo, keep: map[string]string{}, litN: map[string]int{}, skipCh: map[ast.Node]bool{}}
 	pkgShort := shortPkg(p.PkgPath, c.seams.Module)
 
 	for _, imp := range f.Imports {
@@ -387,7 +388,8 @@ func (c *ctx) file(p *packages.Package, f *ast.File) []edit {
 						MapType: types.TypeString(tv.Type, shortQual), Via: "range"})
 					s.wrap(t.X, fmt.Sprintf("%s.Ordered(%d, ", simrtName, sid), ")", 3)
 				} else if isChan(tv.Type) {
-					c.seams.Unowned = append(c.seams.Unowned, PosNote{Kind: "range over channel", Pos: c.pos(t.Pos()), Func: s.curFunc()})
+					s.wrap(t.X, simrtName+".ChanRange(", ")", 3)
+					c.seams.Sync = append(c.seams.Sync, PosNote{Kind: "range over channel", Pos: c.pos(t.Pos()), Func: s.curFunc()})
 				}
 			}
 		case *ast.UnaryExpr:
@@ -398,13 +400,61 @@ func (c *ctx) file(p *packages.Package, f *ast.File) []edit {
 					s.wrap(t, simrtName+".Reg(", ")", 2)
 				}
 			}
-			if t.Op == token.ARROW {
-				c.seams.Unowned = append(c.seams.Unowned, PosNote{Kind: "channel receive", Pos: c.pos(t.Pos()), Func: s.curFunc()})
+			if t.Op == token.ARROW && !s.skipCh[t] {
+				fn := "ChanRecv"
+				if len(s.stack) >= 2 {
+					switch p := s.stack[len(s.stack)-2].(type) {
+					case *ast.AssignStmt:
+						if len(p.Lhs) == 2 && len(p.Rhs) == 1 && unparen(p.Rhs[0]) == ast.Expr(t) {
+							fn = "ChanRecv2"
+						}
+					case *ast.ValueSpec:
+						if len(p.Names) == 2 && len(p.Values) == 1 && unparen(p.Values[0]) == ast.Expr(t) {
+							fn = "ChanRecv2"
+						}
+					}
+				}
+				op := c.off(t.OpPos)
+				s.add(edit{off: op, class: 2, extent: c.off(t.End()) - op, rank: 4, text: simrtName + "." + fn + "(", delTo: op + 2})
+				s.add(edit{off: c.off(t.End()), class: 0, extent: c.off(t.End()) - op, rank: 4, text: ")"})
+				c.seams.Sync = append(c.seams.Sync, PosNote{Kind: "channel receive", Pos: c.pos(t.Pos()), Func: s.curFunc()})
 			}
 		case *ast.SendStmt:
-			c.seams.Unowned = append(c.seams.Unowned, PosNote{Kind: "channel send", Pos: c.pos(t.Pos()), Func: s.curFunc()})
+			if !s.skipCh[t] {
+				a, e := c.off(t.Pos()), c.off(t.End())
+				s.add(edit{off: a, class: 2, extent: e - a + 1, rank: 6, text: simrtName + ".ChanSend("})
+				ar := c.off(t.Arrow)
+				s.add(edit{off: ar, class: 0, extent: 1 << 20, rank: 9, text: ", ", delTo: ar + 2})
+				s.add(edit{off: e, class: 0, extent: e - a + 1, rank: 6, text: ")"})
+				c.seams.Sync = append(c.seams.Sync, PosNote{Kind: "channel send", Pos: c.pos(t.Pos()), Func: s.curFunc()})
+			}
 		case *ast.SelectStmt:
-			c.seams.Unowned = append(c.seams.Unowned, PosNote{Kind: "select", Pos: c.pos(t.Pos()), Func: s.curFunc()})
+			hasDefault := false
+			for _, cl := range t.Body.List {
+				cc, ok := cl.(*ast.CommClause)
+				if !ok {
+					continue
+				}
+				if cc.Comm == nil {
+					hasDefault = true
+					continue
+				}
+				switch cm := cc.Comm.(type) {
+				case *ast.SendStmt:
+					s.skipCh[cm] = true
+				case *ast.ExprStmt:
+					s.skipCh[unparen(cm.X)] = true
+				case *ast.AssignStmt:
+					if len(cm.Rhs) == 1 {
+						s.skipCh[unparen(cm.Rhs[0])] = true
+					}
+				}
+			}
+			if hasDefault {
+				c.seams.Sync = append(c.seams.Sync, PosNote{Kind: "select with default (non-blocking, left real)", Pos: c.pos(t.Pos()), Func: s.curFunc()})
+			} else {
+				c.seams.Unowned = append(c.seams.Unowned, PosNote{Kind: "select without default (can block outside the simulator)", Pos: c.pos(t.Pos()), Func: s.curFunc()})
+			}
 		case *ast.GoStmt:
 			s.goStmt(t)
 		case *ast.CallExpr:
@@ -814,6 +864,10 @@ func (s *fileState) call(t *ast.CallExpr) {
 		if _, isBuiltin := s.info.Uses[fid].(*types.Builtin); isBuiltin && fid.Name == "new" {
 			c.seams.AllocSites++
 			s.wrap(t, simrtName+".Reg(", ")", 2)
+		}
+		if _, isBuiltin := s.info.Uses[fid].(*types.Builtin); isBuiltin && fid.Name == "close" && len(t.Args) == 1 && isChan(s.typeOf(t.Args[0])) {
+			s.replace(t.Fun, simrtName+".ChanClose")
+			c.seams.Sync = append(c.seams.Sync, PosNote{Kind: "channel close", Pos: c.pos(t.Pos()), Func: s.curFunc()})
 		}
 		// R9: uintptr(unsafe.Pointer(x)) - the numeric value (and so the order) of addresses of distinct
 		// allocations is unspecified: the simulator picks it
